@@ -288,6 +288,38 @@ class Flow:
         ranks = [i for i, d in enumerate(self.defs) if d.var == name]
         return f"{name}@" + "_".join(str(ranks.index(i)) for i in a)
 
+    def _gamma(self, ds: list, at: int):
+        """Two plain assignments merged by one if/else (or an assignment overridden under one `if`): the value is the
+        conditional expression of the two.  -> (If statement, def when the test is true, def when it is false)."""
+        if any(d.kind != "assign" or d.value is None or d.stmt is None for d in ds):
+            return None
+        a, b = ds
+        for first, second in ((a, b), (b, a)):
+            pf, ps = parent(first.stmt), parent(second.stmt)
+            # both directly in the two arms of the same if
+            if isinstance(pf, ast.If) and pf is ps and first.stmt in pf.body and second.stmt in pf.orelse:
+                st, dt, df = pf, first, second
+            # `x = a` before, `if c: x = b` (no assignment on the other arm)
+            elif isinstance(ps, ast.If) and second.stmt in ps.body and pf is not ps and \
+                    not any(isinstance(n, ast.Name) and n.id == first.var and isinstance(n.ctx, ast.Store) for s_ in ps.orelse for n in ast.walk(s_)) \
+                    and self.cfg.dominates(first.node, self.cfg.node_for(ps)):
+                st, dt, df = ps, second, first
+            elif isinstance(ps, ast.If) and second.stmt in ps.orelse and pf is not ps and \
+                    not any(isinstance(n, ast.Name) and n.id == first.var and isinstance(n.ctx, ast.Store) for s_ in ps.body for n in ast.walk(s_)) \
+                    and self.cfg.dominates(first.node, self.cfg.node_for(ps)):
+                st, dt, df = ps, first, second
+            else:
+                continue
+            tn = self.cfg.node_for(st)
+            if not self.cfg.dominates(tn, at) or tn == at:
+                continue
+            # the merged name must not be assigned anywhere else inside the arms
+            stores = [n for s_ in st.body + st.orelse for n in ast.walk(s_) if isinstance(n, ast.Name) and n.id == a.var and isinstance(n.ctx, ast.Store)]
+            if len(stores) != (2 if dt.stmt in st.body + st.orelse and df.stmt in st.body + st.orelse else 1):
+                continue
+            return st, dt, df
+        return None
+
     def _forwarded_store(self, name: str, key, at: int) -> "Def | None":
         """The unique `name[key] = v` whose value `name[key]` still has at `at` (no other possible write in between)."""
         def const_key(d: "Def"):
@@ -342,6 +374,14 @@ class Flow:
                 if depth <= 0 or node.id in stop:
                     return leave(node)
                 ds = flow.reaching(node.id, at)
+                if len(ds) == 2:
+                    g = flow._gamma(ds, at)
+                    if g is not None:
+                        test_st, dt, df = g
+                        return ast.copy_location(ast.IfExp(
+                            test=flow._expand(clone(test_st.test), test_st.test, flow.cfg.node_for(test_st), depth - 1, stop, root),
+                            body=flow._expand(clone(dt.value), dt.value, dt.node, depth - 1, stop, root),
+                            orelse=flow._expand(clone(df.value), df.value, df.node, depth - 1, stop, root)), node)
                 if len(ds) != 1:
                     return leave(node)
                 d = ds[0]
